@@ -81,12 +81,8 @@ def diagnose(m, raw_ctx=None, out=None):
     if out is None:
         out = set()
     t = type(m)
-    if t is M.String and m.brackets is not None and str(m).startswith("\n"):
-        out.add("bracket-leading-newline")
     if t is M.FString:
         raw = m.brackets is not None
-        if raw and len(m) and type(m[0]) is M.String and str(m[0]).startswith("\n"):
-            out.add("bracket-leading-newline")
         for i, c in enumerate(m):
             if type(c) is M.String:
                 if raw and "\r" in str(c):
@@ -97,16 +93,15 @@ def diagnose(m, raw_ctx=None, out=None):
                 diagnose(c, raw, out)
         return out
     if t is M.FComponent:
-        if len(m) > 2:
-            out.add("fcomponent-spec-rest-dropped")
-        if len(m) > 1 and type(m[1]) is M.String:
-            s = str(m[1])
-            if "{" in s or "}" in s or (not raw_ctx and ("\\" in s or "\r" in s)):
-                out.add("fcomponent-spec-text-unescaped")
-            if raw_ctx and "\r" in s:
-                out.add("bracket-fstring-carriage-return")
-        if len(m) and type(m[0]) is M.Dict:
-            out.add("fcomponent-form-starts-with-brace")
+        for j, part in enumerate(m[1:]):
+            if type(part) is M.String:
+                s = str(part)
+                if "{" in s or "}" in s or (not raw_ctx and ("\\" in s or "\r" in s)):
+                    out.add("fcomponent-spec-text-unescaped")
+                if raw_ctx and "\r" in s:
+                    out.add("bracket-fstring-carriage-return")
+                if j + 2 < len(m) and type(m[j + 2]) is M.String:
+                    out.add("fcomponent-spec-adjacent-strings")
         for c in m:
             diagnose(c, raw_ctx, out)
         return out
@@ -126,8 +121,6 @@ def repair(m, raw_ctx=None):
     M = hy.models
     t = type(m)
     if t is M.String:
-        if m.brackets is not None:
-            return M.String(str(m).lstrip("\n"), brackets=m.brackets)
         return m
     if t is M.FString:
         raw = m.brackets is not None
@@ -137,8 +130,6 @@ def repair(m, raw_ctx=None):
                 s = str(c)
                 if raw:
                     s = s.replace("\r", "")
-                if raw and i == 0:
-                    s = s.lstrip("\n")
                 if not raw:
                     s = s.replace("\\N{", "\\N(")
                     if s.endswith("\\N") and i + 1 < len(m):
@@ -149,15 +140,18 @@ def repair(m, raw_ctx=None):
                 comps.append(repair(c, raw))
         return M.FString(comps, brackets=m.brackets, is_tstring=m.is_tstring)
     if t is M.FComponent:
-        items = [repair(x, raw_ctx) for x in list(m)[:2]]
-        if items and type(items[0]) is M.Dict:
-            items[0] = M.Symbol("d")
-        if len(items) > 1 and type(items[1]) is M.String:
-            s = str(items[1]).replace("{", "").replace("}", "")
-            s = s.replace("\r", "")
-            if not raw_ctx:
-                s = s.replace("\\", "")
-            items = items[:1] + ([M.String(s)] if s else [])
+        items = [repair(m[0], raw_ctx)]
+        for part in m[1:]:
+            if type(part) is M.String:
+                s = str(part).replace("{", "").replace("}", "").replace("\r", "")
+                if not raw_ctx:
+                    s = s.replace("\\", "")
+                if s and len(items) > 1 and type(items[-1]) is M.String:
+                    items[-1] = M.String(str(items[-1]) + s)       # the reader never leaves two strings side by side
+                elif s:
+                    items.append(M.String(s))
+            else:
+                items.append(repair(part, raw_ctx))
         return M.FComponent(items, conversion=m.conversion, expression=m.expression, is_tstring=m.is_tstring)
     if t is M.Expression and dotted_defect(m):
         return M.Expression([M.Symbol("dotted")] + list(m))
@@ -168,9 +162,8 @@ def repair(m, raw_ctx=None):
     return m
 
 
-CLASSES = ["bracket-fstring-carriage-return", "bracket-leading-newline", "dotted-form-parts", "fcomponent-form-starts-with-brace",
-           "fcomponent-spec-rest-dropped", "fcomponent-spec-text-unescaped", "fstring-named-escape-text",
-           "unquote-dotted-at"]
+CLASSES = ["bracket-fstring-carriage-return", "dotted-form-parts", "fcomponent-spec-adjacent-strings",
+           "fcomponent-spec-text-unescaped", "fstring-named-escape-text", "unquote-dotted-at"]
 
 
 def make_matcher(cls):
@@ -223,7 +216,8 @@ def gen_models(chk, n):
     return out[:n]
 
 
-FIXED_TEXTS = ['f"{a :>{w}}"', "#[[\n\nx]]", 'f"{ {1 2}}"', "(. a ... b)", "(. + _5)", 'rf"\\N{{x}}"', 'f"{a :\\\\}"',
+# the first five are the inputs of repaired defects (known_findings.json, kind fixed): regression cases of every run
+FIXED_TEXTS = ['f"{a :>{w}}"', "#[[\n\nx]]", 'f"{ {1 2}}"', "#[f[\n\na{x}b]f]", 'f"{a !r :>{w}<{p}}"', 'f"{x :a{y = }}"', "(. a ... b)", "(. + _5)", 'rf"\\N{{x}}"', 'f"{a :\\\\}"',
                'f"{a :{{}"', 'f"{a :\\r}"', "(unquote @a)", "~@a", "#* x", "(. None a b)", "..a.b", "a.b.c", 'f"{x = }"',
                'f"{x !r :>5}"', 't"a{x}b"', "#[f[a{x}b]f]", "{1 2 3}", ":a", ":", "''a", "`(a ~b ~@c)", "#^ int x",
                'b"a\\xff"', '"a\\"b\'"', 'f"a{{b}}\\"c"', '#[x[a"b]x]', 'f"{a ! }"', "1e5", "NaN", "-Inf", "1+2j", "NaNj",
